@@ -415,7 +415,11 @@ def _canonicalise_attr_loops(tree):
             newkw = []
             changed = False
             for k in c.keywords:
-                if k.arg is None and isinstance(k.value, ast.Dict) and k.value.keys and all(isinstance(x, ast.Constant) and isinstance(x.value, str) and x.value.isidentifier()
+                if k.arg is None and isinstance(k.value, ast.Call) and isinstance(k.value.func, ast.Name) and k.value.func.id == "dict" and not k.value.args \
+                        and k.value.keywords and all(kk.arg is not None for kk in k.value.keywords):
+                    newkw.extend(ast.keyword(arg=kk.arg, value=kk.value) for kk in k.value.keywords)
+                    changed = True
+                elif k.arg is None and isinstance(k.value, ast.Dict) and k.value.keys and all(isinstance(x, ast.Constant) and isinstance(x.value, str) and x.value.isidentifier()
                                                                                            for x in k.value.keys):
                     for kk, vv in zip(k.value.keys, k.value.values):
                         newkw.append(ast.keyword(arg=kk.value, value=vv))
@@ -474,6 +478,34 @@ def _canonicalise_branches(tree):
                     new = ast.Assign(targets=[st.body[0].targets[0]], value=ast.IfExp(test=st.test, body=st.body[0].value, orelse=st.orelse[0].value))
                     blk[i] = ast.fix_missing_locations(ast.copy_location(new, st))
                     count += 1
+    # (c') `if c: return A` directly followed by `return B` is read as `return A if c else B`
+    for owner in ast.walk(tree):
+        for fld in ("body", "orelse", "finalbody"):
+            blk = getattr(owner, fld, None)
+            if not (isinstance(blk, list) and len(blk) >= 2 and isinstance(blk[0], ast.stmt)):
+                continue
+            i = 0
+            while i + 1 < len(blk):
+                a, b = blk[i], blk[i + 1]
+                if isinstance(a, ast.If) and not a.orelse and len(a.body) == 1 and isinstance(a.body[0], ast.Return) and a.body[0].value is not None \
+                        and isinstance(b, ast.Return) and b.value is not None:
+                    new = ast.Return(value=ast.IfExp(test=a.test, body=a.body[0].value, orelse=b.value))
+                    blk[i] = ast.fix_missing_locations(ast.copy_location(new, a))
+                    del blk[i + 1]
+                    count += 1
+                    continue
+                i += 1
+    # (d) a conditional expression on a negative test is read in its positive form: `A if not c else B` is `B if c else A` (also != / is not / not in)
+    for n in ast.walk(tree):
+        if isinstance(n, ast.IfExp):
+            if isinstance(n.test, ast.UnaryOp) and isinstance(n.test.op, ast.Not):
+                n.test = n.test.operand
+                n.body, n.orelse = n.orelse, n.body
+                count += 1
+            elif isinstance(n.test, ast.Compare) and len(n.test.ops) == 1 and type(n.test.ops[0]) in _NEGCMP:
+                n.test.ops = [_NEGCMP[type(n.test.ops[0])]()]
+                n.body, n.orelse = n.orelse, n.body
+                count += 1
     changed = True
     while changed:
         changed = False
@@ -883,6 +915,12 @@ class Program:
                 self._inline_new_helpers()
                 if self.helpers_inlined == before:
                     break
+            if self.helpers_inlined:
+                # what the inlined bodies brought in is put through the statement-level canonicalisations once more (**dict(...), returned temporaries, branch layout)
+                for m in self.modules.values():
+                    _canonicalise_attr_loops(m.tree)
+                    _canonicalise_branches(m.tree)
+                    _canonicalise_temporaries(m.tree)
         if os.environ.get("VERIF_NO_DEFAULT_CANON") != "1":
             for _round in range(4):
                 before = (self.new_params_specialised, self.default_args_dropped)
